@@ -462,13 +462,15 @@ func judgeDelivered(c *enum.Ctx, got, sent [][]byte, k int, where string) {
 
 type connCase struct {
 	keySeed, randSeed int
-	toClient          []int // payload sizes the server pushes right behind the handshake confirmation
-	toServer          []int // payload sizes the client sends
-	splitAt           []int // segment boundaries of the server->client stream (absolute, 0 = start of the confirmation)
-	flipBit           int   // -1 or bit offset into the server->client stream
-	truncate          int   // -1 or number of bytes after which the server closes
-	reply             bool  // the server sends one more packet after it has received all client packets
-	senders           int   // >1: the client packets are sent by that many threads calling Connection.Send concurrently
+	toClient          []int         // payload sizes the server pushes right behind the handshake confirmation
+	toServer          []int         // payload sizes the client sends
+	splitAt           []int         // segment boundaries of the server->client stream (absolute, 0 = start of the confirmation)
+	flipBit           int           // -1 or bit offset into the server->client stream
+	truncate          int           // -1 or number of bytes after which the server closes
+	reply             bool          // the server sends one more packet after it has received all client packets
+	senders           int           // >1: the client packets are sent by that many threads calling Connection.Send concurrently
+	dialTimeout       time.Duration // >0: NewConnection is called with a context that carries this timeout (cancelled when it returns)
+	replyDelay        time.Duration // the server waits that long before it sends its late reply
 }
 
 type connResult struct {
@@ -550,6 +552,9 @@ func runConn(c *enum.Ctx, cc connCase) connResult {
 			}
 		}
 		if cc.reply {
+			if cc.replyDelay > 0 {
+				vtimes.Sleep(cc.replyDelay)
+			}
 			conn.Write(sess.Seal(next(), []byte("late reply")))
 		}
 		// keep the connection open
@@ -564,7 +569,13 @@ func runConn(c *enum.Ctx, cc connCase) connResult {
 		expect++
 	}
 	s.Run(func() {
-		conn, err := liteclient.NewConnection(vctx.Background(), key.Pub, "server:1")
+		dialCtx := vctx.Background()
+		cancelDial := func() {}
+		if cc.dialTimeout > 0 {
+			dialCtx, cancelDial = vctx.WithTimeout(dialCtx, cc.dialTimeout)
+		}
+		conn, err := liteclient.NewConnection(dialCtx, key.Pub, "server:1")
+		cancelDial()
 		if err != nil {
 			res.connectErr = err
 			return
@@ -606,7 +617,7 @@ func runConn(c *enum.Ctx, cc connCase) connResult {
 		for len(res.delivered) < expect+2 {
 			sl := vsync.NewSel()
 			rc := vsync.AddRecv(sl, (<-chan liteclient.Packet)(conn.Responses()))
-			tc := vsync.AddRecv(sl, vtimes.After(2*time.Second))
+			tc := vsync.AddRecv(sl, vtimes.After(2*time.Second+cc.replyDelay))
 			_ = tc
 			if sl.Wait(false) != 0 {
 				break
@@ -815,6 +826,16 @@ func connHarnesses(r *fw.Run) []fw.HarnessSpec {
 		}
 		c.Label("segment boundaries of the server's stream at %v (confirmation = bytes 0..67)", cc.splitAt)
 		c.Case([]byte(fmt.Sprintf("seg/%v", cc.splitAt)), true)
+		judgeConn(c, cc, runConn(c, cc), -1)
+	})
+	// the context given to NewConnection bounds connecting, nothing else: a connection made under a deadline (how the
+	// pool dials) carries traffic after that deadline has passed like any other
+	iso("connection/dial-context-with-deadline", 0, func(c *enum.Ctx) {
+		cc := connCase{keySeed: 2, randSeed: 2, toClient: []int{5}, toServer: []int{9}, flipBit: -1, truncate: -1, reply: true}
+		cc.dialTimeout = []time.Duration{0, time.Second, 3 * time.Second}[c.ChooseFree(3)]
+		cc.replyDelay = []time.Duration{0, 2 * time.Second, 6 * time.Second}[c.ChooseFree(3)]
+		c.Label("NewConnection under a %v context deadline, the server's last packet comes %v after the client's", cc.dialTimeout, cc.replyDelay)
+		c.Case([]byte(fmt.Sprintf("dialctx/%v/%v", cc.dialTimeout, cc.replyDelay)), true)
 		judgeConn(c, cc, runConn(c, cc), -1)
 	})
 	iso("connection/corruptions", 0, func(c *enum.Ctx) {
